@@ -32,7 +32,8 @@ PROBES = {
             "exogenous_data", "stale_batch", "failed_call_injected", "unsorted_fh", "fh_as_index",
             "labels_after_stale_checked",
             "int_index_nonzero_origin", "negative_origin", "composite_depth2",
-            "tuned_forecaster", "same_integers_other_kind", "components_reused_elsewhere"],
+            "tuned_forecaster", "same_integers_other_kind", "components_reused_elsewhere",
+            "frozen_model_same_time_points_checked"],
 }
 FAULT_KINDS = {
     "C10": ["overlap_batch", "empty_batch", "pickle_roundtrip", "schedule_ooo",
@@ -492,7 +493,7 @@ class Engine:
         self.note("fit", n0, fhs)
 
     def snapshot(self):
-        if self.prop != "C10":
+        if self.prop != "C10" and not _time_only(self.spec):
             return
         try:
             with peers.paused():
@@ -1117,30 +1118,41 @@ class Engine:
                        "fitted parameters changed although every update since the last fit had "
                        "update_params=False", op="update")
             elif _time_only(self.spec) and a.kind != "period":
-                # a model that is a function of (fitted parameters, time point) only: with the
-                # parameters frozen, the forecast for a time point is the one the forecaster as
-                # of its last fit makes for that same time point from its older cutoff
-                labels = [int(a.label(a.cut)) + int(s_) for s_ in steps]
-                with peers.paused():
-                    try:
-                        from sktime.forecasting.base import ForecastingHorizon
-                        g2 = pickle.loads(self.snap_refit)
-                        q2 = g2.predict(ForecastingHorizon(pd.Index(labels, dtype=np.int64),
-                                                           is_relative=False))
-                    except Exception as e:  # noqa
-                        self.note("abs_time_twin_raised", type(e).__name__)
-                        return
-                self.res.probe("frozen_model_same_time_points_checked")
-                if not C.same_series(p, q2):
-                    self.v("forecast_not_from_new_cutoff",
-                           "parameters frozen (update_params=False), cutoff moved to %s: predict(%s) "
-                           "gives %s for the time points %s; the forecaster as of its last fit gives "
-                           "%s for those time points" % (a.label(a.cut), steps, C.fmt(p), labels[:5],
-                                                         C.fmt(q2)), op="predict", after_update=True)
+                self.check_frozen_time_only(p, steps)
+
+    def check_frozen_time_only(self, p, steps):
+        """A model that is a function of (fitted parameters, time point) only: with the
+        parameters frozen, the forecast for a time point is the one the forecaster as of its
+        last fit makes for that same time point from its older cutoff."""
+        a = self.a
+        labels = [int(a.label(a.cut)) + int(s_) for s_ in steps]
+        with peers.paused():
+            try:
+                from sktime.forecasting.base import ForecastingHorizon
+                g2 = pickle.loads(self.snap_refit)
+                q2 = g2.predict(ForecastingHorizon(pd.Index(labels, dtype=np.int64),
+                                                   is_relative=False))
+            except Exception as e:  # noqa
+                self.note("abs_time_twin_raised", type(e).__name__)
+                return
+        self.res.probe("frozen_model_same_time_points_checked")
+        if not C.same_series(p, q2):
+            self.v("forecast_not_from_new_cutoff",
+                   "parameters frozen (update_params=False), cutoff moved to %s: predict(%s) "
+                   "gives %s for the time points %s; the forecaster as of its last fit gives "
+                   "%s for those time points" % (a.label(a.cut), steps, C.fmt(p), labels[:5],
+                                                 C.fmt(q2)), op="predict", after_update=True)
 
     # ---- C03 oracles
     def check_c03_prediction(self, i, p, ptw, steps, fhs):
         a, tw = self.a, self.tw
+        if self.snap_refit is not None and self.since_refit and not self.refit_clean \
+                and _time_only(self.spec) and a.kind != "period" and isinstance(p, pd.Series) \
+                and not self.after_upd and not self.stale_state:
+            # the value under a label must be the forecast FOR that time point
+            self.check_frozen_time_only(p, steps)
+            if self.res.violations:
+                return
         if self.updates_since_fit:
             self.res.probe("predict_after_update")
             self.checked_after_update += 1
